@@ -83,7 +83,7 @@ type Worker struct {
 type queue struct {
 	mu      sync.Mutex
 	cond    *sync.Cond
-	items   [][]int64
+	items   []workItem
 	busy    int
 	closed  bool
 	started int
@@ -96,7 +96,7 @@ func newQueue() *queue {
 	return q
 }
 
-func (q *queue) push(items [][]int64) {
+func (q *queue) push(items []workItem) {
 	q.mu.Lock()
 	q.items = append(q.items, items...)
 	q.mu.Unlock()
@@ -104,14 +104,14 @@ func (q *queue) push(items [][]int64) {
 }
 
 // pop returns the next prefix (LIFO) or nil when exploration is complete.
-func (q *queue) pop() ([]int64, bool) {
+func (q *queue) pop() (workItem, bool) {
 	q.mu.Lock()
 	defer q.mu.Unlock()
 	for {
 		if q.max > 0 && q.started >= q.max {
 			q.closed = true
 			q.cond.Broadcast()
-			return nil, false
+			return workItem{}, false
 		}
 		if len(q.items) > 0 {
 			it := q.items[len(q.items)-1]
@@ -123,7 +123,7 @@ func (q *queue) pop() ([]int64, bool) {
 		if q.busy == 0 || q.closed {
 			q.closed = true
 			q.cond.Broadcast()
-			return nil, false
+			return workItem{}, false
 		}
 		q.cond.Wait()
 	}
@@ -141,7 +141,7 @@ func Explore(env *Env, fn *ssa.Function, cfg HarnessCfg, params map[string]int, 
 	res := NewResults(cfg.Func)
 	q := newQueue()
 	q.max = cfg.MaxPaths
-	q.push([][]int64{{}})
+	q.push([]workItem{{base: nil, alt: -1}})
 	var wg sync.WaitGroup
 	for i := 0; i < nworkers; i++ {
 		wg.Add(1)
@@ -151,9 +151,13 @@ func Explore(env *Env, fn *ssa.Function, cfg HarnessCfg, params map[string]int, 
 				sharedGlobals: map[*ssa.Global]*value{}}
 			defer w.s.Close()
 			for {
-				prefix, ok := q.pop()
+				item, ok := q.pop()
 				if !ok {
 					break
+				}
+				var prefix []int64
+				if !(item.base == nil && item.alt == -1) {
+					prefix = item.prefix()
 				}
 				if time.Now().After(deadline) {
 					res.inconclusive("deadline reached; exploration truncated")
@@ -193,7 +197,7 @@ func Explore(env *Env, fn *ssa.Function, cfg HarnessCfg, params map[string]int, 
 	return res
 }
 
-func (w *Worker) runPath(fn *ssa.Function, cfg HarnessCfg, params map[string]int, prefix []int64) (pending [][]int64) {
+func (w *Worker) runPath(fn *ssa.Function, cfg HarnessCfg, params map[string]int, prefix []int64) (pending []workItem) {
 	p := &Path{w: w, tt: w.tt, s: w.s, prefix: prefix, varSet: map[*Term]bool{},
 		reach: map[string]int{}, harness: cfg.Func, stubs: map[string]bool{}, funcs: map[string]int{},
 		maxSteps: 2000000, unwind: 100000, numCPU: 2}
